@@ -63,7 +63,17 @@ def params_for(rng, name, explicit):
     kw = _params_for(rng, name, explicit)
     if "frequency" in kw and rng.random() < 0.5:       # the sampling step spelled as Dt instead of frequency
         kw["Dt"] = 1.0 / kw.pop("frequency")
+    if rng.random() < 0.3:      # options whose default is None handed over explicitly as None (a caller forwarding cfg.get('gain')): the same as leaving them out
+        for pref, names in NONE_DEFAULTS.items():
+            if name.startswith(pref):
+                for n_ in names:
+                    if rng.random() < 0.6:
+                        kw[n_] = None
     return kw
+
+
+NONE_DEFAULTS = {"Madgwick": ["gain", "beta"], "Mahony": ["b0", "q0"], "EKF/MARG": ["magnetic_ref", "q0"], "EKF/IMU": ["q0"], "Fourati": ["magnetic_dip"], "ROLEQ": ["weights", "magnetic_ref", "q0"],
+                 "AQUA": ["q0"]}
 
 
 def _params_for(rng, name, explicit):
